@@ -420,6 +420,9 @@ where
         for (_, packet) in session.retrasmit_queue.iter() {
             #[cfg(feature = "verif")]
             crate::verif::probe("retransmitted_packet");
+            // An exchange that is still in flight keeps occupying a slot of the send quota,
+            // which the CONNACK of the new connection has just reset to Receive Maximum.
+            connection.send_quota = connection.send_quota.saturating_sub(1);
             tx.write(packet.as_ref()).await?;
         }
 
